@@ -510,6 +510,9 @@ func (r *runner) doOp(st step) (orderMiss bool) {
 		if st.Op != "create" && len(preSS.DIDs) == 0 {
 			demand = false // the subject itself was rolled back (its create was abandoned): nothing to update
 		}
+		if st.Op != "create" && st.Op != "deactivate" && tr.deactAt && errors.Is(err, resolver.ErrDeactivated) {
+			demand = false // the subject is deactivated on the network: the update is refused for every DID, with or without the fault
+		}
 		if demand && tr.outcome != "ok" {
 			r.violate("retry-fails", r.site(st.S, preSS), st.S, fmt.Sprintf("%s was hit by a fault at step %d (%s, now %s); after the rollback sweep its repetition fails: %v", st.Op, f.step, f.outcome, orDefault(f.resolved, "still pending"), err))
 		}
